@@ -195,9 +195,9 @@ def run(cx):
                 elif isinstance(n.func, ast.Attribute) and n.func.attr == "pop" and not n.args and st_.is_set(n.func.value):
                     # allowed only under a dominating len(s) == 1 test
                     guarded = False
-                    for anc in m.ancestors(n):
-                        if isinstance(anc, ast.If) and f"len({norm(n.func.value)}) == 1" in norm(anc.test):
-                            guarded = True
+                    from ..flow import lexical_conds
+                    want = f"len({norm(n.func.value)}) == 1"
+                    guarded = any(c == want and tv for c, tv in lexical_conds(m, n))   # a conjunct of a dominating test, not a disjunct
                     r.check(guarded, f"{fnq(n)}/set-pop[{norm(n.func.value)}]", (m, n), "set.pop() picks an arbitrary element", sample=f"{fnq(n)}: {norm(n.func.value)}.pop() under len==1")
                 elif cn in ORDER_FREE_CONSUMERS and n.args and st_.is_set(n.args[0]):
                     r.ok(f"{fnq(n)}: {cn}({norm(n.args[0])[:40]})")
